@@ -129,6 +129,11 @@ def run(ctx):
             break
     if not ctx.violations:
         evals += inverse_pairs(ctx, exe, hist)
+    if not ctx.violations:
+        # histories with DIFFERENT inputs per call: file content, attached streams and definitions persist between calls
+        th = tracelib.run_histories(ctx, exe, ctx.n(20, 400) if ok else 250, with_cells=False)
+        evals += th["evaluations"]
+        distinct |= {("h", k) for k in range(th["distinct"])}
     ctx.cov["evaluations"] = evals
     ctx.cov["distinct_nontrivial"] = len(distinct)
     ctx.cov["traces_validated_against_impl"] = evals
@@ -138,7 +143,10 @@ def run(ctx):
                        "1024 combinations of the ten switches (output, log, error, dump, selected-output: string and file), in "
                        "groups of 4 consecutive calls on one instance so that switches change between calls; distinct = "
                        "distinct (input, configuration) pairs; every call's recorded PHRQ_io event stream is replayed through "
-                       "Model/Route and all views compared; files are read back from disk." % nconf)
+                       "Model/Route and all views compared; files are read back from disk. Histories: 2..5 calls with different "
+                       "inputs on one instance (see history_histogram), every call judged by the Lean history model "
+                       "(Inst.call: files re-created only when their switch is on, punch files written only while a stream is "
+                       "attached, views cleared per call), files compared whatever the switch says." % nconf)
     if not ok and not ctx.violations:
         ctx.violation("proof obligation of C09 no longer checks and no failing input was found",
                       {"broken": ctx.proof_broken}, found_input=False)
@@ -210,6 +218,9 @@ def replay(ctx, data):
     if "broken" in data:
         print("replay names broken obligations:", data["broken"])
         return run(ctx)
+    if data.get("kind") == "history":
+        ctx.prove(["PhreeqcVerif.Properties.Route"])
+        return tracelib.replay_history(ctx, data)
     if data.get("kind") == "paired":
         # two fresh instances, same input repeated position+1 times; only the last call's configuration differs
         exe = ctx.build_harness("ph_trace")
